@@ -118,13 +118,26 @@ def eval_trunc(case):
                 cc = CryptContext(schemes=[name], truncate_error=True, **opts)
                 do_hash = lambda s: cc.hash(s, **ctxkw)  # noqa: E731
                 do_verify = lambda s, h: cc.verify(s, h, **ctxkw)  # noqa: E731
+            elif mode in ("on_context_update", "off_context_update", "on_context_copy", "off_context_load"):
+                # the context-wide policy switched at run time: the LAST setting decides
+                opts = {f"{name}__{k}": v for k, v in kw.items()}
+                want_on = mode.startswith("on_")
+                cc = CryptContext(schemes=[name], truncate_error=not want_on, **opts)
+                if mode.endswith("_update"):
+                    cc.update(truncate_error=want_on)
+                elif mode.endswith("_copy"):
+                    cc = cc.copy(truncate_error=want_on)
+                else:
+                    cc.load({"truncate_error": "true" if want_on else "false"}, update=True)
+                do_hash = lambda s: cc.hash(s, **ctxkw)  # noqa: E731
+                do_verify = lambda s, h: cc.verify(s, h, **ctxkw)  # noqa: E731
             else:
                 Hc = H.using(**kw) if kw else H
                 do_hash = lambda s: Hc.hash(s, **ctxkw)  # noqa: E731
                 do_verify = lambda s, h: Hc.verify(s, h, **ctxkw)  # noqa: E731
         except Exception as e:  # noqa: BLE001
             return [(key + ":setup_raises:" + _exc_name(e), f"configuring {name} mode {mode} raised {e!r}")]
-        on = always_on or mode != "off"
+        on = always_on or not mode.startswith("off")
         try:
             h = do_hash(secret)
             raised = None
@@ -389,6 +402,16 @@ def run(ctx):
                             for form in ("text", "bytes"):
                                 cases.append({"part": "trunc", "hasher": name, "backend": backend, "mode": mode, "shape": shape,
                                               "password": p, "form": form, "encoding": None, "extra": {"ident": ident}})
+        # the context-wide policy switched at run time (update / copy / load(update=True)), boundary passwords only
+        if "truncate_error" in H.setting_kwds:
+            short = [t for t in trunc_passwords(limit) if t[0].split(":")[1] in ("T+0", "T+1", "T+2")]
+            for backend in backends_of(name):
+                if backend == "builtin" and HS.base_name(name) == "bcrypt":
+                    continue
+                for mode in ("on_context_update", "off_context_update", "on_context_copy", "off_context_load"):
+                    for shape, p in (short[::3] if ctx.quick else short):
+                        cases.append({"part": "trunc", "hasher": name, "backend": backend, "mode": mode, "shape": shape,
+                                      "password": p, "form": "text", "encoding": None})
         if name == "lmhash":
             # expansion under upper-casing: 'ß' -> 'SS'
             for k in range(12, 16):
